@@ -5,6 +5,7 @@
 import TrashVerif.Spec.C13
 import TrashVerif.Model.Cmds
 import TrashVerif.Proofs.C07
+import TrashVerif.Proofs.C02CmdEval
 namespace TrashVerif.Proofs.C13
 open TrashVerif Bytes TrashVerif.C13
 
@@ -904,5 +905,73 @@ theorem scope_dir_relative (cwd comps : CPath) (hn : GoodNames cwd) (hc : GoodNa
 theorem scope_root_offers_all (loc : Bytes) : inScope (restoreScopeDir (toStr []) []) loc = true := by
   rw [scope_dir_default [] (fun _ h => by cases h)]
   simp [inScope, toStr]
+
+/-! ### the trash directory read: the path as spelled, resolved by the kernel
+
+`InfoFiles.all_info_files` lists `join(trash_dir, "info")` for the trash directory AS SPELLED (until
+the fix it applied `os.path.normpath` first, so `--trash-dir link/../T` read the info directory of
+the textual collapse of `link/..`, another directory). -/
+
+/-- every entry of the scan is read from a trashinfo name of the listing of `pjoin t "info"` -/
+theorem restore_reads_named_trash_dir (fs : FS) (cwd : CPath) (t v : Bytes) (ns : List Bytes)
+    (h : listdirStr fs cwd (pjoin t (b "info")) = some ns) :
+    ∀ e ∈ restoreEntriesOf fs cwd t v,
+      ∃ n ∈ ns, isTrashinfoName n = true ∧ e.info = pjoin (pjoin t (b "info")) n := by
+  intro e he
+  unfold restoreEntriesOf at he
+  simp only [h] at he
+  obtain ⟨n, hn, hen⟩ := List.mem_filterMap.1 he
+  obtain ⟨hn1, hn2⟩ := List.mem_filter.1 hn
+  refine ⟨n, hn1, hn2, ?_⟩
+  split at hen
+  · cases hen
+  · split at hen
+    · cases hen
+    · cases hen; rfl
+
+namespace NamedEx
+open TrashVerif.Proofs.C16Eval TrashVerif.Proofs.C02CmdEval
+
+def dN : Node := .dir 0o755 0
+def infoA : Bytes := b "[Trash Info]\nPath=x/a\nDeletionDate=2020-01-02T03:04:05\n"
+def infoB : Bytes := b "[Trash Info]\nPath=x/b\nDeletionDate=2020-01-02T03:04:05\n"
+
+/-- `/jump -> /deep/inner`; two trash directories: `/ct` (entry `a`) and `/deep/ct` (entry `b`) -/
+def W : FS := FS.ofList
+  [([], dN), ([b "deep"], dN), ([b "deep", b "inner"], dN), ([b "jump"], .link (b "/deep/inner")),
+   ([b "ct"], dN), ([b "ct", b "info"], dN), ([b "ct", b "info", b "a.trashinfo"], .file infoA 0o600 0),
+   ([b "deep", b "ct"], dN), ([b "deep", b "ct", b "info"], dN),
+   ([b "deep", b "ct", b "info", b "b.trashinfo"], .file infoB 0o600 0)] [[]]
+
+def dateEx : Option Date := parseDeletionDate infoA
+
+/-- `--trash-dir /jump/../../ct`: the kernel follows `/jump` to `/deep/inner`, goes up twice and
+    names `/ct`; the scan lists `/ct/info`, and the info paths are built on the string as spelled.
+    (Here the textual collapse `normpath "/jump/../../ct"` = "/ct" happens to name the same
+    directory; the discriminating spelling is `/jump/../ct`, next theorem.) -/
+theorem named_up_up :
+    (FS.resolve W [] (b "/jump/../../ct/info") true).toOption = some [b "ct", b "info"] ∧
+    listdirStr W [] (pjoin (b "/jump/../../ct") (b "info")) = some [b "a.trashinfo"] ∧
+    restoreEntriesOf W [] (b "/jump/../../ct") (b "/") =
+      [{ loc := b "/x/a", date := dateEx, info := b "/jump/../../ct/info/a.trashinfo" }] := by
+  rw [restoreEntriesOf_eq, listdirStr_eq, resolve_eq]
+  decide +kernel
+
+/-- `--trash-dir /jump/../ct`: the kernel names `/deep/ct` (`/jump/..` is `/deep`), whose entry `b`
+    is what the scan returns; the textual collapse `normpath "/jump/../ct"` = "/ct" names the OTHER
+    trash directory, whose entry `a` the code read before the fix. -/
+theorem named_not_collapsed :
+    (FS.resolve W [] (b "/jump/../ct/info") true).toOption = some [b "deep", b "ct", b "info"] ∧
+    normpath (b "/jump/../ct") = b "/ct" ∧
+    listdirStr W [] (pjoin (b "/jump/../ct") (b "info")) = some [b "b.trashinfo"] ∧
+    listdirStr W [] (pjoin (normpath (b "/jump/../ct")) (b "info")) = some [b "a.trashinfo"] ∧
+    restoreEntriesOf W [] (b "/jump/../ct") (b "/") =
+      [{ loc := b "/x/b", date := dateEx, info := b "/jump/../ct/info/b.trashinfo" }] ∧
+    restoreEntriesOf W [] (normpath (b "/jump/../ct")) (b "/") =
+      [{ loc := b "/x/a", date := dateEx, info := b "/ct/info/a.trashinfo" }] := by
+  rw [restoreEntriesOf_eq, restoreEntriesOf_eq, listdirStr_eq, listdirStr_eq, resolve_eq]
+  decide +kernel
+
+end NamedEx
 
 end TrashVerif.Proofs.C13
